@@ -186,7 +186,7 @@ def parse_multistatus(body):
     return ms
 
 
-def effective_status(resp):
+def effective_status(resp, only_with_error=False):
     """The status a client acts on.
 
     Observed: failed preconditions on PUT/POST are sent as a 207 whose single
@@ -198,6 +198,8 @@ def effective_status(resp):
     if ms.parse_error or len(ms.responses) != 1:
         return 207
     r = ms.responses[0]
+    if only_with_error and not r.errors:
+        return 207
     if r.status is not None and r.status >= 400:
         return r.status
     return 207
